@@ -765,6 +765,14 @@ def w6(e: Engine, rep: Report):
             for st in ctx.func.module.tree.body:
                 if isinstance(st, ast.FunctionDef) and st.name == x.func.id:
                     nodes += list(ast.walk(st))
+        elif isinstance(x, ast.Call) and isinstance(x.func, ast.Attribute) \
+                and isinstance(x.func.value, ast.Name) and \
+                x.func.value.id in ('self', 'cls'):
+            # ... and the (static) methods of IO the splitting was moved to
+            m = e.p.lookup_method(IOC, x.func.attr)
+            if m is not None and m is not ctx.func and \
+                    x.func.attr.startswith('_'):
+                nodes += list(ast.walk(m.node))
     for x in nodes:
         if not isinstance(x, ast.Call) or \
                 not isinstance(x.func, ast.Attribute):
